@@ -240,7 +240,7 @@ class ConstEval:
           raise NotConst("ValueError")
         except Exception as ex:
           raise NotConst(str(ex))
-      if isinstance(e.func, ast.Attribute) and e.func.attr in ("join", "lower", "upper", "strip", "rstrip", "lstrip", "get", "split", "startswith", "endswith", "isdigit", "replace", "zfill") and not e.keywords:
+      if isinstance(e.func, ast.Attribute) and e.func.attr in ("join", "lower", "upper", "strip", "rstrip", "lstrip", "get", "split", "startswith", "endswith", "isdigit", "replace", "zfill", "index", "count") and not e.keywords:
         try:
           recv = self._ev(m, e.func.value, cls, env)
           vals = [self._ev(m, a, cls, env) for a in args]
@@ -256,12 +256,23 @@ class ConstEval:
           if e.func.attr in ("split", "startswith", "endswith") and len(vals) <= 2 and all(isinstance(x, (str, int, tuple)) for x in vals):
             r_ = getattr(recv, e.func.attr)(*vals)
             return r_
+        if isinstance(recv, (list, tuple)) and e.func.attr in ("index", "count") and vals is not None and len(vals) == 1:
+          try:
+            return getattr(recv, e.func.attr)(vals[0])
+          except ValueError:
+            raise Raised()        # tuple.index of a missing value: the evaluated code raises
         if isinstance(recv, dict) and e.func.attr == "get" and vals is not None and 1 <= len(vals) <= 2:
           try:
             return recv.get(*vals)
           except TypeError as ex:
             raise NotConst(str(ex))
       if self.symbolic_ok:
+        # the call itself is opaque, but its arguments are still evaluated: one that raises makes the call raise
+        for a in e.args:
+          try:
+            self._ev(m, a, cls, env)
+          except NotConst:
+            pass
         return Sym(ast.unparse(e))
       raise NotConst("call")
     if isinstance(e, ast.Subscript):
@@ -269,6 +280,10 @@ class ConstEval:
       idx = self._ev(m, e.slice, cls, env)
       try:
         return base[idx]
+      except (IndexError, KeyError) as ex:
+        if isinstance(base, (list, tuple, str, bytes, dict)) and isinstance(idx, (int, str, bytes, tuple, EnumMember)):
+          raise Raised()      # a constant container subscripted outside its range / keys: the evaluated code raises
+        raise NotConst(str(ex))
       except Exception as ex:
         raise NotConst(str(ex))
     if isinstance(e, ast.Slice):
@@ -399,9 +414,19 @@ class FuncEval:
       elif isinstance(st, ast.If):
         t = ce.ev(f.module, st.test, f.cls, env)
         self._block(ce, f, st.body if t else st.orelse, env)
+      elif isinstance(st, ast.While) and not st.orelse and not any(isinstance(x, (ast.Break, ast.Continue)) for x in ast.walk(st)):
+        # bounded: a loop that does not end within MAX_LOOP rounds leaves the evaluable subset
+        rounds = 0
+        while ce.ev(f.module, st.test, f.cls, env):
+          rounds += 1
+          if rounds > self.MAX_LOOP:
+            raise NotConst(f"while loop at line {st.lineno} exceeds {self.MAX_LOOP} rounds")
+          self._block(ce, f, st.body, env)
       else:
         raise NotConst(f"statement {type(st).__name__} at line {st.lineno}")
     return None
+
+  MAX_LOOP = 64
 
   @staticmethod
   def _bind(target, v, env):
